@@ -1,2 +1,15 @@
+(* C11 — Loose objects written by gitoxide are git objects and read back exactly.
+   Only statements here; every proof is [exact <lemma>].  Model: Model.v. *)
 From GixV.Base Require Import Bytes BytesFacts Outcome.
 From GixV.C11 Require Import Model Proofs.
+Local Open Scope N_scope.
+
+(* the object path is git's: a directory named by the first byte in hex, a file named by the other 19 *)
+Theorem path_is_git_path : forall id, length id = 20%nat ->
+  exists d f, hash_path id = Ok (d, f) /\ length d = 2%nat /\ length f = 38%nat /\
+              d ++ f = hex_encode id /\ d = hex_encode (firstn 1 id) /\ f = hex_encode (skipn 1 id).
+Proof. exact L_hash_path. Qed.
+
+(* a truncated file is never returned as an object, whatever could be inflated from it *)
+Theorem truncated_is_error : forall alloc_ok zf r, z_end zf = ZMore -> find_inner alloc_ok zf <> Ok r.
+Proof. exact L_truncated_is_error. Qed.
